@@ -49,6 +49,11 @@ func runC05(p *eng.Prog, r *eng.Report, tier string) {
 	// alone - the from address stamped on server-to-server stanzas is the
 	// address negotiateSession preserved across the steps
 	c12HeaderKeepsAbsent(c, "C05.22")
+	// C05.25 (= C06.16 / C07.8): the positions getIDTyp reports are positions in
+	// the attribute list it was given (the senders write the generated id into
+	// start.Attr[idx]): id, type and their indexes are taken from a range over
+	// the parameter itself, behind the empty-namespace test
+	idTypFromOwnAttributes(c, "C05.25")
 	// (no sync.Pool on today's tree: kept alive by the stored variant C05-r14-3)
 	c.r.Note("C05.23: %d Pool.Put calls", pooledStorageDoesNotEscape(c, "C05.23"))
 	nEnum := enumExhaustive(c, "C05.13", []string{"stanza"})
